@@ -64,8 +64,9 @@ CLAIMED = {
              "(a defect found there - the sign of the exponential term in the log fit - was repaired, fix: bd235b5).",
         design_ref="DESIGN.md section 4 (C12)",
         note="Trusted: Coq kernel+vm_compute; Reals axioms + funext; translate/inverse.py; documented matrices. "
-             "Partial: UnitaryMatrix (PauliRotation has pauli_rotation_inverse_undoes), float arithmetic of the residual gate "
-             "count, extrapolation numerics and qsub Inverse (C19) are decided by the sweep.",
+             "PauliRotation and UnitaryMatrix gates have pauli_rotation_inverse_undoes / unitary_matrix_inverse_undoes over the "
+             "branch data regenerated from inverse_gate (angle scale, conjugate-transpose flags). Partial: float arithmetic of "
+             "the residual gate count, extrapolation numerics and qsub Inverse (C19) are decided by the sweep.",
         technique="Coq proof over a table regenerated by symbolic evaluation of inverse_gate + induction over "
                   "circuits; vm_compute correspondence of the folding model; numpy sweep"),
     "C02": dict(
@@ -155,8 +156,9 @@ CLAIMED = {
         design_ref="DESIGN.md section 4 (C10)",
         note="Trusted: Coq kernel+vm_compute; Reals axioms + functional_extensionality_dep for the bound-action theorems "
              "(refinement theorems closed under the global context); translate/parametric.py; correspondence harness; AST "
-             "fingerprints. Partial: ParametricPauliRotationDecomposeTranspiler and the Rust UnboundParametricQuantumCircuit "
-             "combination are decided by the sweep only (one Rust-side known finding).",
+             "fingerprints. ParametricPauliRotationDecomposeTranspiler has parametric_pauli_rotation_transpile_then_bind "
+             "(C10_pauli.v: Pauli strings of any length). Partial: the Rust UnboundParametricQuantumCircuit combination is "
+             "decided by the sweep only (one Rust-side known finding).",
         technique="Coq refinement proof (invariant by induction over operation histories) + template reflection for the "
                   "bound action + vm_compute correspondence on histories + reference-model/numpy sweep"),
     "C13": dict(
@@ -220,12 +222,12 @@ CLAIMED = {
              "decomposition) conserves the parity; real_variant_circuits_map_real_states_to_real_states / "
              "so4_circuits_map_real_states_to_real_states: the blocks of the real-amplitude variants have product matrices "
              "that are real up to one phase for all angles (exactly real for the SO(4) entangler), so their circuits map real "
-             "states to real states. A dense numpy sweep covers the remaining classes (UCCSD, k-UpCCGSD).",
+             "states to real states. jw_ucc_circuits_conserve_particle_number (UCCJW.v): the excitation groups of TrotterUCCSD and KUpCCGSD under the Jordan-Wigner mapping - 2 or 8 rotations about Pauli strings with X / Y on the endpoint qubits and one common string of Z factors - conserve the particle number for every string length, every placement and every angle: the regenerated endpoint templates are decided through the C01-proved decomposition, and a fibre argument (a Z string is a sign that is constant on the fibres of the endpoint qubits) lifts them to any Z string; jw_ucc_circuits_conserve_sz does the same for total S_z on the regenerated spin patterns of the endpoints. A dense numpy sweep covers the other mappings of those classes.",
         design_ref="DESIGN.md section 4 (C15), 9.2",
         note="Trusted: Coq kernel+vm_compute; Reals axioms + functional_extensionality_dep; template extraction by executing "
              "the repository's gadget functions (translate/gadgets.py, harness/blocks_C15.py); documented gate matrices. "
-             "Partial: the OpenFermion-generated Pauli-rotation ansatz classes (TrotterUCCSD, KUpCCGSD) and total-spin claims by "
-             "the sweep only.",
+             "translate/ucc.py (templates by executing TrotterUCCSD / KUpCCGSD). Partial: those classes under the (symmetry-"
+             "conserving) Bravyi-Kitaev mappings and total-spin claims by the sweep only.",
         technique="Coq proof (charge-sector semantics over registers of any size + reflection of block product matrices "
                   "into Laurent polynomials, vm_compute) + segmentation correspondence + dense numpy sweep"),
     "C19": dict(
@@ -392,7 +394,8 @@ CLAIMED = {
              "outcome distribution of the measured state is <psi|P|psi> for every state on a register of any size.",
         design_ref="DESIGN.md section 4 (C07), 9.2",
         note="Trusted: Coq kernel+vm_compute; Reals axioms + funext (measurement theorem); translate/tables.py; "
-             "correspondence harness. Partial: the cached measurement-circuit factory is decided by the sweep.",
+             "correspondence harness. The cached factory has cached_measurement_factory_returns_the_factory_result (content-keyed "
+             "cache model, tied by an AST fingerprint and the cache sweep).",
         technique="Coq proof (induction over the Pauli map with commutation lemmas from vm_compute obligations; "
                   "bit-extensionality on N; invariant of the greedy insertion) + vm_compute correspondence + dense sweep"),
 }
